@@ -10,3 +10,4 @@ import XPathV.Theorems.C07
 #print axioms XPathV.Theorems.C07.cell_setSet_eq
 #print axioms XPathV.Theorems.C07.cell_setSet_ne
 #print axioms XPathV.Theorems.C07.asBool_spec
+#print axioms XPathV.Theorems.C07.asBool_float_arm_ok
